@@ -27,6 +27,38 @@ func init() {
 		},
 		Assumptions: []string{"as C01; the measured quantity (go/types Sizeof, list lengths, rune counts) is symbolic"},
 	}
+	properties["C03"] = &property{
+		ID: "C03", Level: "model_checking", Kinds: []string{"history"},
+		Harnesses: relHarnesses([]string{"gsxHistVisit_", "gsxHistWalk_"}, "history",
+			[]map[string]int{{"K": 3, "B": 2, "strlen": 8, "paths": 800, "wall_s": 15}, {"K": 2, "B": 2, "strlen": 8, "paths": 300, "wall_s": 10}},
+			[]map[string]int{{"K": 4, "B": 2, "strlen": 8, "paths": 20000, "wall_s": 300}, {"K": 3, "B": 2, "strlen": 8, "paths": 10000, "wall_s": 300}}),
+		Assumptions: []string{"as C01; one step of history (an arbitrary earlier input) from the initial checker state, against a fresh instance"},
+	}
+	properties["C13"] = &property{
+		ID: "C13", Level: "model_checking", Kinds: []string{"local"},
+		Harnesses: relHarnesses([]string{"gsxLocal_"}, "local",
+			[]map[string]int{{"K": 3, "B": 2, "strlen": 8, "paths": 600, "wall_s": 15}},
+			[]map[string]int{{"K": 4, "B": 2, "strlen": 8, "paths": 20000, "wall_s": 300}}),
+		Assumptions: []string{"as C01; two lazily initialised function declarations d1, d2 in source order"},
+	}
+	properties["C02"] = &property{
+		ID: "C02", Level: "model_checking", Kinds: []string{"repeat"},
+		Harnesses: relHarnesses([]string{"gsxRepeat_"}, "repeat",
+			[]map[string]int{{"K": 2, "B": 3, "strlen": 6, "paths": 600, "wall_s": 15}},
+			[]map[string]int{{"K": 3, "B": 4, "strlen": 6, "paths": 20000, "wall_s": 300}}),
+		Assumptions: []string{"as C01; the iteration order of every Go map with at most 4 entries is an independent nondeterministic permutation at each range statement"},
+	}
+	{
+		var hs []harness
+		for _, n := range []string{"appendAssign", "appendCombine", "newDeref", "badRegexp", "regexpPattern", "regexpSimplify", "sortSlice", "filepathJoin", "flagName"} {
+			hs = append(hs, harness{Name: "gsxAPI_" + n, Pkg: "checkers", Quick: map[string]int{"K": 3, "B": 2, "strlen": 8, "paths": 1500, "wall_s": 30},
+				Thorough: map[string]int{"K": 4, "B": 2, "strlen": 8, "paths": 30000, "wall_s": 600}, NoValidate: true, Tolerant: true, ReplayFn: replayAPI(n)})
+		}
+		properties["C20"] = &property{ID: "C20", Level: "model_checking", Kinds: []string{"api"}, Harnesses: hs,
+			Assumptions: []string{"as C01; table of documented subjects per checker (builtin name / standard package path) in the harness"}}
+	}
+	properties["C11"] = &property{ID: "C11", Level: "translation_validation", Extra: runC11, ReplayExtra: replayC11,
+		Assumptions: []string{"patterns: the repository's own examples plus a bounded grammar (see evidence); Go's regexp/syntax parser is the semantics' front end; subjects are byte strings"}}
 	properties["C07"] = &property{
 		ID: "C07", Level: "model_checking", Kinds: []string{"pos"},
 		Harnesses: visitHarnesses(map[string]int{"K": 3, "B": 2, "strlen": 8, "paths": 1000, "wall_s": 25}, map[string]int{"K": 4, "B": 2, "strlen": 8, "paths": 30000, "wall_s": 600}),
@@ -120,6 +152,33 @@ func visitHarnesses(quick, thorough map[string]int) []harness {
 		wq := map[string]int{"K": 2, "B": 2, "strlen": 8, "paths": 400, "wall_s": 15}
 		wt := map[string]int{"K": 3, "B": 2, "strlen": 8, "paths": 10000, "wall_s": 300}
 		hs = append(hs, harness{Name: "gsxWalk_" + n, Pkg: "checkers", Quick: wq, Thorough: wt, NoValidate: true, Tolerant: true, ReplayFn: replayVisit(n)})
+	}
+	return hs
+}
+
+// relHarnesses: relational harnesses (history / locality / repetition) for every hand-written checker.
+func relHarnesses(prefixes []string, mode string, quick, thorough []map[string]int) []harness {
+	names, err := handWrittenCheckers()
+	if err != nil {
+		return nil
+	}
+	var hs []harness
+	exempt := map[string]bool{"dupImport": true, "typeDefFirst": true, "commentedOutImport": true, "codegenComment": true, "docStub": true, "ruleguard": true}
+	for _, n := range names {
+		if mode == "local" && exempt[n] {
+			continue // documented subject is file-level order / file header
+		}
+		for i, pre := range prefixes {
+			h := harness{Name: pre + n, Pkg: "checkers", Quick: quick[i], Thorough: thorough[i], NoValidate: true, Tolerant: true, ReplayFn: replayRelational(n, mode)}
+			if mode == "repeat" {
+				h.MapOrder = 4
+				if n == "dupImport" || n == "importShadow" {
+					// the map-ordered emitters need 4 entries to show two groups
+					h.Quick = map[string]int{"K": 2, "B": 4, "strlen": 6, "paths": 6000, "wall_s": 60}
+				}
+			}
+			hs = append(hs, h)
+		}
 	}
 	return hs
 }
